@@ -36,6 +36,19 @@ type normalizer struct {
 
 func nfail(class, path string) error { return &normFail{class, path} }
 
+// subPath extends a diagnostic path. Paths are only used in failure details; beyond 400 bytes they are
+// cut off ("…"), so that walking a document nested 10^4..10^5 deep does not build O(depth^2) bytes of
+// path strings (the codec.stress stream spent 8 GB / 9 s per op there).
+func subPath(path, seg string) string {
+	if len(path) > 400 {
+		if strings.HasSuffix(path, "…") {
+			return path
+		}
+		return path + "…"
+	}
+	return path + seg
+}
+
 func (n *normalizer) root(root *sRoot, v *jval, path string) (*jval, error) {
 	if root.isOneof {
 		return n.oneof(root, v, path)
@@ -52,22 +65,22 @@ func (n *normalizer) object(root *sRoot, v *jval, path string) (*jval, error) {
 	for _, m := range v.members {
 		p := root.prop(m.key)
 		if p == nil {
-			return nil, nfail("unknown-key", path+"."+m.key)
+			return nil, nfail("unknown-key", subPath(path, "."+m.key))
 		}
 		if m.val.kind == jNull {
 			continue
 		}
 		if _, dup := got[m.key]; dup {
-			return nil, nfail("dup-key", path+"."+m.key)
+			return nil, nfail("dup-key", subPath(path, "."+m.key))
 		}
 		if p.oneof != nil {
 			k := string(p.oneof.FullName())
 			if other, ok := oneofSeen[k]; ok {
-				return nil, nfail("proto-oneof-multi", path+"."+other+"+"+m.key)
+				return nil, nfail("proto-oneof-multi", subPath(path, "."+other+"+"+m.key))
 			}
 			oneofSeen[k] = m.key
 		}
-		nv, err := n.prop(p, m.val, path+"."+m.key)
+		nv, err := n.prop(p, m.val, subPath(path, "."+m.key))
 		if err != nil {
 			return nil, err
 		}
@@ -115,7 +128,7 @@ func (n *normalizer) oneof(root *sRoot, v *jval, path string) (*jval, error) {
 		}
 		p := root.prop(m.key)
 		if p == nil {
-			return nil, nfail("unknown-key", path+"."+m.key)
+			return nil, nfail("unknown-key", subPath(path, "."+m.key))
 		}
 		sawKey = true
 		if m.val.kind == jNull {
@@ -156,7 +169,7 @@ func (n *normalizer) oneof(root *sRoot, v *jval, path string) (*jval, error) {
 		return nil, nfail("oneof-type-mismatch", path)
 	}
 	p := root.prop(key)
-	nv, err := n.prop(p, val, path+"."+key)
+	nv, err := n.prop(p, val, subPath(path, "."+key))
 	if err != nil {
 		return nil, err
 	}
@@ -371,9 +384,9 @@ func (n *normalizer) field(f *sField, v *jval, path string) (*jval, error) {
 		out := &jval{kind: jArr}
 		for i, e := range v.elems {
 			if e.kind == jNull {
-				return nil, nfail("wrong-type:null-element", fmt.Sprintf("%s[%d]", path, i))
+				return nil, nfail("wrong-type:null-element", subPath(path, fmt.Sprintf("[%d]", i)))
 			}
-			nv, err := n.field(f.item, e, fmt.Sprintf("%s[%d]", path, i))
+			nv, err := n.field(f.item, e, subPath(path, fmt.Sprintf("[%d]", i)))
 			if err != nil {
 				return nil, err
 			}
@@ -395,13 +408,13 @@ func (n *normalizer) field(f *sField, v *jval, path string) (*jval, error) {
 		seen := map[string]bool{}
 		for _, m := range v.members {
 			if seen[m.key] {
-				return nil, nfail("dup-key", path+"{"+m.key+"}")
+				return nil, nfail("dup-key", subPath(path, "{"+m.key+"}"))
 			}
 			seen[m.key] = true
 			if m.val.kind == jNull {
-				return nil, nfail("wrong-type:null-map-value", path+"{"+m.key+"}")
+				return nil, nfail("wrong-type:null-map-value", subPath(path, "{"+m.key+"}"))
 			}
-			nv, err := n.field(f.item, m.val, path+"{"+m.key+"}")
+			nv, err := n.field(f.item, m.val, subPath(path, "{"+m.key+"}"))
 			if err != nil {
 				return nil, err
 			}
@@ -434,11 +447,11 @@ func (n *normalizer) any(f *sField, v *jval, path string) (*jval, error) {
 			typ = m.val
 		case "value":
 			if val != nil {
-				return nil, nfail("dup-key", path+".value")
+				return nil, nfail("dup-key", subPath(path, ".value"))
 			}
 			val = m.val
 		default:
-			return nil, nfail("unknown-key", path+"."+m.key)
+			return nil, nfail("unknown-key", subPath(path, "."+m.key))
 		}
 	}
 	if typ == nil || val == nil {
@@ -458,7 +471,7 @@ func (n *normalizer) any(f *sField, v *jval, path string) (*jval, error) {
 			n.skip = true
 			return v, nil
 		}
-		inner, err := n.root(ir, val, path+".value")
+		inner, err := n.root(ir, val, subPath(path, ".value"))
 		if err != nil {
 			return nil, err
 		}
@@ -488,7 +501,7 @@ func sameDoc(a, b *jval, path string) string {
 			if o == nil {
 				return fmt.Sprintf("%s: member %q only on one side", path, m.key)
 			}
-			if d := sameDoc(m.val, o, path+"."+m.key); d != "" {
+			if d := sameDoc(m.val, o, subPath(path, "."+m.key)); d != "" {
 				return d
 			}
 		}
@@ -497,7 +510,7 @@ func sameDoc(a, b *jval, path string) string {
 			return fmt.Sprintf("%s: %d vs %d elements", path, len(a.elems), len(b.elems))
 		}
 		for i := range a.elems {
-			if d := sameDoc(a.elems[i], b.elems[i], fmt.Sprintf("%s[%d]", path, i)); d != "" {
+			if d := sameDoc(a.elems[i], b.elems[i], subPath(path, fmt.Sprintf("[%d]", i))); d != "" {
 				return d
 			}
 		}
